@@ -201,10 +201,10 @@ def run(ctx):
 
     taint_rule(ctx, "C20-R1", [render],
                "text that is not authored markup (exception message, source lines, file names, solution texts) never "
-               "reaches a markup-interpreting sink that can raise", reference=40)
+               "reaches a markup-interpreting sink that can raise", reference=41)
 
     # ---------------------------------------------------------------- R2
-    r = ctx.rule("C20-R2", "GUARD", "frames under the ignored path are skipped only when the verbosity is not debug", reference=1)
+    r = ctx.rule("C20-R2", "GUARD", "frames under the ignored path are skipped only when the verbosity is not debug", reference=2)
     rt = et.methods.get("_render_trace")
     ctx.require(rt is not None, "ExceptionTrace._render_trace missing")
     cfg = ctx.cfg(rt)
@@ -487,7 +487,7 @@ def run(ctx):
     # ---------------------------------------------------------------- R10
     r = ctx.rule("C20-R10", "TABLE", "one notion of 'line' in the snippet: the highlighter normalises line ends to '\\n' and the tokenizer counts "
                  "'\\n' only, so text is cut into lines at '\\n' only - never with str.splitlines(), which also cuts at form feed, "
-                 "\\x1c-\\x1e, \\x85, U+2028/9 and shifts every later line number", reference=1)
+                 "\\x1c-\\x1e, \\x85, U+2028/9 and shifts every later line number", reference=2)
     hl = ctx.cls("clikit.ui.components.exception_trace.Highlighter")
     for m in sorted(hl.methods.values(), key=lambda f: f.name):
         for c in q.calls(m):
@@ -584,7 +584,7 @@ def run(ctx):
 
     # ---------------------------------------------------------------- R15
     r = ctx.rule("C20-R15", "SIBLING", "'on an output that cannot show UTF-8 the snippet uses ASCII marks': every highlighter the trace renderer builds is told what the output supports "
-                 "(supports_utf8 = io.supports_utf8()), and every snippet is cut from the frame's file content - the call sites agree", reference=4)
+                 "(supports_utf8 = io.supports_utf8()), and every snippet is cut from the frame's file content - the call sites agree", reference=5)
     firsts = {}
     for name_, m_ in sorted(et.methods.items()):
         for c in q.calls(m_):
